@@ -101,9 +101,9 @@ func c06Gen(r *driver.Rand, thorough bool) *driver.Plan {
 		p.N = r.Intn(n + 2)
 	case "Throttling":
 		p.N = 1 + r.Intn(3)
-		p.IntervalMs = driver.Pick(r, 10, 100)
+		p.IntervalMs = driver.Pick(r, 10, 100, 0, 1+r.Intn(30))
 	case "Emit":
-		p.IntervalMs = driver.Pick(r, 1, 10, 1000)
+		p.IntervalMs = driver.Pick(r, 1, 10, 1000, 1+r.Intn(40))
 	case "Join":
 		k := driver.Pick(r, 0, 1, 2, 3, 5, 9, 17)
 		p.Inputs = nil
@@ -126,6 +126,9 @@ func c06Gen(r *driver.Rand, thorough bool) *driver.Plan {
 		p.Mode = driver.Pick(r, "pure", "lift", "try", "try")
 	case "Unfold":
 		p.Mode = driver.Pick(r, "pure", "lift")
+	}
+	if p.Mode != "pure" && r.Chance(1, 4) {
+		p.SetX("err_kind", 1+r.Intn(2))
 	}
 	if p.Mode != "pure" && r.Chance(1, 2) {
 		k := 1 + r.Intn(2)
@@ -215,6 +218,12 @@ func joinOnline(s *Sys, clause string) func(i, v int) {
 		idx := v % 1000
 		if in < 0 || in >= len(s.P.Inputs) || idx >= len(s.P.Inputs[in]) || s.P.Inputs[in][idx] != v {
 			s.E.Failf(clause, "Join delivered an element that no input contains", "Join delivered %d; inputs %v", v, s.P.Inputs)
+			return
+		}
+		if s.P.X("dup_input") == 1 && in == 0 {
+			// two copiers on the same channel: order within that input is not
+			// determined; exactly-once is checked at the end
+			next[in]++
 			return
 		}
 		if idx != next[in] {
